@@ -72,6 +72,16 @@ func (v *arrayValidator) feed(jsonLexeme lexeme.LexEvent) ([]validator, bool) {
 			})
 		}
 		return nil, true
+
+	case lexeme.LiteralBegin:
+		if isNullable(v.node_) { // the null which `nullable: true` admits instead of the array
+			return nil, false
+		}
+
+	case lexeme.LiteralEnd:
+		if isNullable(v.node_) && jsonLexeme.Value().String() == "null" {
+			return nil, true
+		}
 	}
 
 	panic(errors.ErrUnexpectedLexInArrayValidator)
